@@ -216,7 +216,56 @@ def _strip_coq_comments(txt):
     return "".join(out)
 
 
+def write_if_changed(path, content):
+    try:
+        if open(path).read() == content:
+            return False
+    except OSError:
+        pass
+    os.makedirs(os.path.dirname(path), exist_ok=True)
+    with open(path, "w") as f:
+        f.write(content)
+    return True
+
+
+def gen_project():
+    """_CoqProject lists every .v under coq/ except Extract/ (extraction runs from ocaml/)."""
+    vs = sorted(os.path.relpath(v, COQ) for v in glob.glob(os.path.join(COQ, "**", "*.v"), recursive=True))
+    vs = [v for v in vs if not v.startswith("Extract/")]
+    write_if_changed(os.path.join(COQ, "_CoqProject"), "-Q . NiflyVerif\n" + "\n".join(vs) + "\n")
+
+
+def gen_extract():
+    """coq/Extract/Extract.v is assembled from the per-family fragments coq/Extract/*.names
+    (line 1: modules to import, remaining lines: constants to extract)."""
+    mods, names = [], []
+    for f in sorted(glob.glob(os.path.join(COQ, "Extract", "*.names"))):
+        lines = [l.strip() for l in open(f) if l.strip() and not l.startswith("#")]
+        mods += lines[0].split()
+        for l in lines[1:]:
+            names += l.split()
+    mods = list(dict.fromkeys(mods))
+    names = list(dict.fromkeys(names))
+    txt = ("(* GENERATED by tools/vlib.py from coq/Extract/*.names -- do not edit.\n"
+           "   All extraction happens here (compiled from /verif/ocaml so model.ml lands there).\n"
+           "   Only ExtrOcamlBasic is used: bool, option, prod, list, unit, sumbool map to OCaml's;\n"
+           "   nat, positive, N, Z stay the extracted inductive types. No Extract Constant directives. *)\n"
+           "From Coq Require Extraction.\nFrom Coq Require Import ExtrOcamlBasic.\n"
+           "From NiflyVerif Require Import " + " ".join(mods) + ".\n\n"
+           "Extraction Language OCaml.\nExtraction \"model.ml\"\n  " + "\n  ".join(names) + ".\n")
+    write_if_changed(os.path.join(COQ, "Extract", "Extract.v"), txt)
+    # main.ml dispatches on the family name = suffix of d_<family>.ml
+    fams = sorted(os.path.basename(f)[2:-3] for f in glob.glob(os.path.join(OCAML, "d_*.ml")))
+    main = ("(* GENERATED by tools/vlib.py *)\nlet () =\n"
+            "  if Array.length Sys.argv < 2 then (prerr_endline \"usage: model_oracle <family> < cases\"; exit 2);\n"
+            "  match Sys.argv.(1) with\n"
+            + "".join("  | \"%s\" -> D_%s.main ()\n" % (f, f) for f in fams)
+            + "  | f -> prerr_endline (\"unknown family \" ^ f); exit 2\n")
+    write_if_changed(os.path.join(OCAML, "main.ml"), main)
+
+
 def coq_makefile():
+    gen_project()
     mk = os.path.join(COQ, "Makefile")
     proj = os.path.join(COQ, "_CoqProject")
     if not os.path.exists(mk) or os.path.getmtime(mk) < os.path.getmtime(proj):
@@ -280,6 +329,7 @@ def coq_property(pid, extra_targets=(), timeout=1500):
 
 def build_model_oracle(timeout=900):
     """Extract (if a model changed) and build ocaml/model_oracle. Returns path."""
+    gen_extract()
     coq_makefile()
     # everything Extract.v requires
     ext = os.path.join(COQ, "Extract", "Extract.v")
